@@ -28,6 +28,9 @@ def sqliteInfix : Sym → Option (Nat × Nat)
   | .and_ => some (20, 21)
   | .eq | .ne | .is_ | .isNot | .isDistinct | .isNotDistinct => some (40, 41)
   | .like | .notLike | .in_ | .notIn => some (40, 41)
+  -- (SQLite has no ILIKE keyword and its dialect never emits one — it renders
+  --  `lower(x) LIKE lower(y)`; the entries only keep the LIKE family uniform)
+  | .ilike | .notIlike => some (40, 41)
   -- `x BETWEEN lo AND hi`: the LALR parser keeps shifting inside `lo` (there is nothing to
   -- reduce before the AND), so `lo` extends over everything that binds tighter than AND
   | .between | .notBetween => some (40, 21)
@@ -50,7 +53,7 @@ def sqlite : Grammar where
     | .between | .notBetween => some (.and_, 41, true)
     -- `expr likeop expr ESCAPE expr [LIKE_KW]`: the rule has the precedence of LIKE, so the
     -- escape operand extends over everything binding tighter than LIKE
-    | .like | .notLike => some (.escape, 41, false)
+    | .like | .notLike | .ilike | .notIlike => some (.escape, 41, false)
     | _ => none
 
 def postgresqlInfix : Sym → Option (Nat × Nat)
@@ -84,6 +87,7 @@ def mysqlInfix : Sym → Option (Nat × Nat)
   | .and_ => some (20, 21)
   | .eq | .ne | .lt | .le | .gt | .ge | .nseq | .is_ | .isNot => some (50, 51)
   | .like | .notLike | .in_ | .notIn => some (55, 56)
+  | .ilike | .notIlike => some (55, 56)   -- never emitted by the MySQL dialect (see sqlite)
   -- `bit_expr BETWEEN bit_expr AND predicate`
   | .between | .notBetween => some (55, 60)
   | .plus | .minus => some (90, 91)
@@ -103,7 +107,7 @@ def mysql : Grammar where
     | _ => none
   ternBp
     | .between | .notBetween => some (.and_, 55, true)
-    | .like | .notLike => some (.escape, 125, false)
+    | .like | .notLike | .ilike | .notIlike => some (.escape, 125, false)
     | _ => none
 
 end SaVerif.Pratt
